@@ -128,6 +128,68 @@ def model_decode(data: bytes) -> str:
     return text.replace("\r\n", "\n").replace("\r", "\n")
 
 
+def _to_ascii(text):
+    return "".join("Z" if ord(c) > 127 else c for c in text)
+
+
+def _non_ascii_only_in_strings_and_comments(text):
+    import io
+    import tokenize
+
+    try:
+        for tok in tokenize.generate_tokens(io.StringIO(text).readline):
+            if not tok.string.isascii() and tok.type not in (tokenize.STRING, tokenize.COMMENT) and \
+                    tok.type not in (getattr(tokenize, "FSTRING_MIDDLE", -1),):
+                return False
+    except (tokenize.TokenError, SyntaxError, IndentationError):
+        return False
+    return True
+
+
+def _ascii_twin(W, st, prefs):
+    """The same refactoring computed on a twin of the project in which every non-ASCII
+    character (they occur in string literals and comments only) is replaced by 'Z'.
+    Returns {path: new text}, "refused", or None when no twin can be built."""
+    from rope.base.project import Project
+
+    snap = W.snapshot()
+    d = kernel.new_scratch("c16t-")
+    try:
+        any_non_ascii = False
+        for p, v in snap.items():
+            full = os.path.join(d, *p.split("/"))
+            if v == kernel.DIR:
+                os.makedirs(full, exist_ok=True)
+                continue
+            os.makedirs(os.path.dirname(full), exist_ok=True)
+            try:
+                text = v.decode(_effective_encoding(v))
+            except (UnicodeError, LookupError):
+                return None
+            text = text.replace("\r\n", "\n").replace("\r", "\n")
+            any_non_ascii = any_non_ascii or not text.isascii()
+            if p.endswith(".py") and not text.isascii() and not _non_ascii_only_in_strings_and_comments(text):
+                return None  # replacing characters would change the program's syntax: no twin
+            with open(full, "w", encoding="ascii", newline="") as fh:
+                fh.write(_to_ascii(text))
+        if not any_non_ascii:
+            return None
+        T = Project(d, ropefolder=None, **{k: v for k, v in prefs.items() if k in ("automatic_soa",)})
+        try:
+            ch = compute_refactoring(T, st)
+            if ch is None or not ch.changes:
+                return "refused"
+            ops = abstract_of(ch)
+            res = {o[1]: o[2] for o in ops if o[0] == "edit"}
+            res["<other>"] = [o[:2] for o in ops if o[0] != "edit"]
+            return res
+        finally:
+            T.close()
+    finally:
+        kernel.drop_scratch(d)
+        W.use()
+
+
 def _effective_encoding(data: bytes) -> str:
     """The encoding CPython reads a source file with: the PEP 263 declaration in the first two
     lines (any of LF, CRLF, CR ends a line for the interpreter), else UTF-8; codec names normalised."""
@@ -263,7 +325,18 @@ class ByteStoreEngine(Engine):
             for e in init:
                 if not e.get("dir"):
                     codecs[e["p"]] = [None, "utf8", "utf-8"]
-            if rng.random() < 0.5:
+            if rng.random() < 0.6:
+                # string literals with the program's own characters on def lines and in calls
+                wcls = "utf8"
+                for e in init:
+                    if not e.get("dir") and "def add(a, b):" in e["text"]:
+                        e["text"] = e["text"].replace("def add(a, b):", "def add(a, b='%s'):" % _word(rng, "cyr", 3)).replace(
+                            "add(1, 'x')", "add(1, '%s')" % _word(rng, "latin", 3))
+                    if not e.get("dir") and "def run():" in e["text"]:
+                        e["text"] = e["text"].replace("def run():", "def run(t='%s', u=2):" % _word(rng, "jp", 2)).replace(
+                            "alpha.run()", "alpha.run('%s')" % _word(rng, "latin", 2))
+                swarm["non_ascii_signatures"] = True
+            if rng.random() < 0.5 and not swarm.get("non_ascii_signatures"):
                 # the whole program is kept in a legacy encoding: every module declares it and
                 # carries text that only round-trips under that declaration
                 pc = rng.choice([c for c in CODECS if c[0] and c[1] in ("latin", "cyr", "jp")])
@@ -376,6 +449,12 @@ class ByteStoreEngine(Engine):
                     dests = ["hdr.py"]
                 steps.append({"op": "refactor", "kind": "move_global", "path": src[0] if src else p, "ident": ident,
                               "dest": rng.choice(dests) if dests else p, "id": nid})
+            elif k == "refactor" and rng.random() < 0.15:
+                ch = rng.choice([[["normalize"]], [["remove", 1]], [["reorder", [1, 0]]], [["add", 1, "extra", "None", "0"]],
+                                 [["inline_default", 1]], [["add", 0, "first", None, "1"], ["normalize"]], [["remove", 0]]])
+                ident = rng.choice(["add", "run", "foo", "make", "meth"])
+                src = [q for q in files if re.search(r"^\s*def %s\b" % ident, texts.get(q, ""), re.M)]
+                steps.append({"op": "refactor", "kind": "change_signature", "path": src[0] if src else p, "ident": ident, "changers": ch, "id": nid})
             elif k == "refactor" and rng.random() < 0.45:
                 r = rng.random()
                 pys = [q for q in files if q.endswith(".py")]
@@ -393,6 +472,21 @@ class ByteStoreEngine(Engine):
             elif k == "refactor":
                 steps.append({"op": "refactor", "kind": "rename", "path": p, "ident": rng.choice(gen.PROGRAM_IDENTS),
                               "occ": rng.randrange(4), "new": rng.choice(gen.NEW_IDENTS) + str(nid), "id": nid, "docs": False})
+            elif k == "create" and swarm["program"]:
+                # a new, valid module in the program's own encoding
+                codec = next((c for c in CODECS if c[0] == swarm.get("program_codec")), CODECS[0]) if swarm.get("program_codec") else CODECS[0]
+                q = "n%d.py" % nid
+                text = ("# -*- coding: %s -*-\n" % codec[0] if codec[0] else "") + "# %s\nnv%d = '%s'\n" % (_word(rng, codec[1]), nid, _word(rng, codec[1]))
+                try:
+                    if text.encode(codec[2]).decode(codec[2]) != text:
+                        text = "nv%d = 1\n" % nid
+                except (UnicodeError, LookupError):
+                    text = "nv%d = 1\n" % nid
+                steps.append({"op": "create", "path": q, "text": text, "id": nid})
+                nls[q] = "lf"
+                files.append(q)
+                codecs[q] = list(codec)
+                texts[q] = text
             elif k == "create":
                 codec = rng.choice(CODECS)
                 q = "n%d.py" % nid
@@ -624,10 +718,41 @@ class ByteStoreEngine(Engine):
                                 out.stats["probe_rollback_restored_bytes"] += 1
                                 out.nontrivial(prefix, "rollback")
                     elif op == "refactor":
+                        from .. import world as _world
+
+                        _world.LAST_REFUSAL[0] = None
                         changes = compute_refactoring(W.project, st)
-                        if changes is None or not changes.changes:
+                        refusal = _world.LAST_REFUSAL[0]
+                        twin_ops = _ascii_twin(W, st, prefs) if swarm.get("program") else None
+                        if twin_ops is not None:
+                            out.stats["probe_ascii_twin_computed"] += 1
+                            real_ops = None
+                            if changes is not None and changes.changes:
+                                real_ops = {o[1]: _to_ascii(o[2]) for o in abstract_of(changes) if o[0] == "edit"}
+                                real_ops["<other>"] = [o[:2] for o in abstract_of(changes) if o[0] != "edit"]
+                            comparable = not (real_ops is None and refusal and refusal.startswith(("ModuleSyntaxError", "UnicodeEncodeError", "UnicodeDecodeError")))
+                            # (a module that is not valid Python, or text the destination's declared encoding
+                            # cannot hold, may become acceptable when its characters are replaced: not comparable)
+                            if not comparable:
+                                out.stats["probe_ascii_twin_not_comparable"] += 1
+                            elif real_ops != twin_ops and (real_ops is not None or twin_ops != "refused"):
+                                # a refactoring cuts, pastes and re-indents text; what the characters of string
+                                # literals and comments are (ASCII or not) must not change what it does
+                                diff = "refused only with the non-ASCII text" if real_ops is None else (
+                                    "done only with the non-ASCII text" if twin_ops == "refused" else sorted(
+                                        k for k in set(real_ops) | set(twin_ops) if real_ops.get(k) != twin_ops.get(k)))
+                                first = diff[0] if isinstance(diff, list) and diff else None
+                                bad = ("refactoring_depends_on_non_ascii", {
+                                    "kind": st["kind"], "differs": diff, "refusal": refusal,
+                                    "with_non_ascii": (real_ops or {}).get(first) if first else None,
+                                    "ascii_twin": twin_ops.get(first) if first and isinstance(twin_ops, dict) else None})
+                                sig["kind"] = st["kind"]
+                        if bad:
+                            pass
+                        elif changes is None or not changes.changes:
                             out.stats["skipped"] += 1
                             continue
+                    if op == "refactor" and not bad:
                         ops = abstract_of(changes)
                         if any(o[0] != "edit" for o in ops):
                             out.stats["skipped"] += 1
@@ -673,7 +798,7 @@ class ByteStoreEngine(Engine):
                         c0, c1 = _chars(cur.files), _chars(now)
                         if c0:
                             out.stats["probe_refactoring_edited_file_with_non_ascii"] += 1
-                        if c0 is not None and not bad and st["kind"] != "inline" and (c1 is None or not c0 <= c1):
+                        if c0 is not None and not bad and st["kind"] not in ("inline", "change_signature") and (c1 is None or not c0 <= c1):
                             bad = ("refactoring_lost_non_ascii", {"kind": st["kind"], "lost": sorted(c0 - (c1 or set()))[:8]})
                 except Exception as e:
                     bad = ("step_raised", {"exc": repr(e)[:300]})
